@@ -28,6 +28,14 @@ const TEMPLATES: &[Template] = &[
         text: "{FILE}module M\n{ENCL}interface I {\n    /// @param nope: there is no such parameter\n    {ELEM}op()\n    {SIB}op2()\n}\ncompact struct Bad {}\n" },
     Template { lint: "MalformedDocComment", other: "Deprecated",
         text: "{FILE}module M\n{ENCL}interface I {\n    /// @nosuchtag text\n    {ELEM}op()\n    {SIB}op2()\n}\ncompact struct Bad {}\n" },
+    // TWO lints of different kinds about the SAME element (one scope): a suppression naming one of them leaves the other alone,
+    // whichever is recorded first
+    Template { lint: "BrokenDocLink", other: "Deprecated",
+        text: "{FILE}module M\n{ENCL}interface I {\n    /// See {@link Nope}.\n    /// @param nope: there is no such parameter\n    {ELEM}op()\n    {SIB}op2()\n}\ncompact struct Bad {}\n" },
+    Template { lint: "IncorrectDocComment", other: "Deprecated",
+        text: "{FILE}module M\n{ENCL}interface I {\n    /// See {@link Nope}.\n    /// @param nope: there is no such parameter\n    {ELEM}op()\n    {SIB}op2()\n}\ncompact struct Bad {}\n" },
+    Template { lint: "IncorrectDocComment", other: "MalformedDocComment",
+        text: "{FILE}module M\n[deprecated] struct Old {}\n{ENCL}interface I {\n    /// @param nope: there is no such parameter\n    {ELEM}op(p: Old)\n    {SIB}op2()\n}\ncompact struct Bad {}\n" },
     // lints about references that are NOT members (an alias's underlying type, a base interface), placed AFTER a definition with
     // members: the suppression on those unrelated members (the {SIB} slot) must have no effect on them
     Template { lint: "Deprecated", other: "BrokenDocLink",
@@ -55,7 +63,7 @@ fn compile(texts: &[&str], options: &SliceOptions) -> Result<Obs, String> {
 }
 
 pub fn run() -> i32 {
-    let mut rep = Report::new("lints", "4 lint kinds (6 templates: also lints about an alias's underlying type and a base interface, after a definition with members) x 11 placements of a suppression (incl. repeated allow attributes) x 4 arguments on template programs (each with one lint about a known element and one error), against the run without suppression");
+    let mut rep = Report::new("lints", "4 lint kinds (9 templates: also lints about an alias's underlying type and a base interface, after a definition with members, and two lints of different kinds about one element) x 11 placements of a suppression (incl. repeated allow attributes) x 4 arguments on template programs (each with one lint about a known element and one error), against the run without suppression");
     for t in TEMPLATES {
         let plain = fill(t.text, "", "", "", "");
         let base = match compile(&[&plain], &SliceOptions::default()) { Ok(b) => b, Err(m) => { rep.counterexample(&plain, "diagnostics", &m); continue; } };
@@ -107,8 +115,10 @@ pub fn run() -> i32 {
                 let got = match compile(&refs, &options) { Ok(g) => g, Err(m) => { rep.counterexample(&label, "diagnostics", &m); continue; } };
                 // oracle: the same diagnostics, in the same order, with the same levels, except that
                 // the one lint is Allowed iff the suppression names it and is in scope
-                let silenced = *names_it && in_scope;
-                let want: Obs = base.iter().map(|d| if d.0 == t.lint && silenced { (d.0.clone(), d.1.clone(), "Allowed".to_owned()) } else { d.clone() }).collect();
+                // (every warning of a template is about the {ELEM} element, so "in scope" is the same for all of them)
+                let named = |code: &str| ids.iter().any(|i| i == "All" || i == code);
+                debug_assert_eq!(*names_it, named(t.lint));
+                let want: Obs = base.iter().map(|d| if d.2 == "Warning" && in_scope && named(&d.0) { (d.0.clone(), d.1.clone(), "Allowed".to_owned()) } else { d.clone() }).collect();
                 if got != want {
                     if place == "the element itself" { element_placement_works = false; }
                     let show = |o: &Obs| o.iter().map(|d| format!("{}:{}", d.0, d.2)).collect::<Vec<_>>().join(" ");
